@@ -54,6 +54,10 @@ pub enum SStep {
     /// from now on this many milliseconds of simulated time pass with every system call (a slow or
     /// heavily loaded machine): time also passes *inside* one library call
     Pace(u64),
+    /// this client becomes a spinning sender: from now on, whenever the server has received from
+    /// its connection the socket is already full again (endless header lines; the one client action
+    /// that happens *inside* library calls)
+    Firehose(usize),
 }
 
 #[derive(Clone, Debug)]
@@ -117,6 +121,7 @@ impl SStep {
             SStep::Sleep(secs) => a(vec![json::s("sleep"), json::u(*secs as usize)]),
             SStep::ClockStep(secs) => a(vec![json::s("clock_step"), json::i(*secs)]),
             SStep::Pace(ms) => a(vec![json::s("pace"), json::u(*ms as usize)]),
+            SStep::Firehose(c) => a(vec![json::s("firehose"), json::u(*c)]),
         }
     }
     pub fn from_json(j: &J) -> Result<SStep, String> {
@@ -146,6 +151,7 @@ impl SStep {
             "spurious_in" => SStep::SpuriousIn(n(1)?),
             "sleep" => SStep::Sleep(n(1)? as u64),
             "pace" => SStep::Pace(n(1)? as u64),
+            "firehose" => SStep::Firehose(n(1)?),
             "clock_step" => SStep::ClockStep(a.get(1).and_then(|x| x.int()).ok_or("secs")? as i64),
             _ => return Err(format!("unknown step {}", k)),
         })
@@ -238,6 +244,9 @@ pub struct Client {
     pub reset_seen: bool,
     pub accept: Accept,
     pub read_fault: bool,
+    /// a spinning sender (see SStep::Firehose) and how many of its bytes are in `sent` already
+    pub firehose: bool,
+    pub fire_synced: u64,
     /// server-side receives on this connection that failed with EAGAIN / EINTR
     pub read_faults_fired: usize,
     /// one entry per such failure: None until the first moment afterwards at which the epoll
@@ -665,6 +674,8 @@ impl ServerSim {
                                     reset_seen: false,
                                     accept: Accept::NotYet,
                                     read_fault: false,
+                                    firehose: false,
+                                    fire_synced: 0,
                                     read_faults_fired: 0,
                                     fault_marks: Vec::new(),
                                     any_srv_write_error: false,
@@ -900,6 +911,23 @@ impl ServerSim {
                 st.fault("F-time-passes");
                 self.sig.u(17);
                 true
+            }
+            SStep::Firehose(c) => {
+                let script_len = self.scripts.get(*c).map(|s| s.len()).unwrap_or(0);
+                match self.clients.get_mut(c) {
+                    Some(cl) if cl.accept == Accept::Served && !cl.closed && !cl.shut_wr && !cl.firehose => {
+                        cl.firehose = true;
+                        // nothing more comes from the script: the rest of the client's life is the pattern
+                        cl.off = script_len;
+                        let conn = cl.conn;
+                        world::with(|w| w.firehose_start(conn));
+                        self.sync_firehose();
+                        st.fault("F-spinning-sender");
+                        self.sig.u(20);
+                        true
+                    }
+                    _ => false,
+                }
             }
             SStep::Pace(ms) => {
                 simkernel::rawsys::clock::set_tick(ms.saturating_mul(1_000_000));
@@ -1341,7 +1369,22 @@ impl ServerSim {
     }
 
     /// digest the stub's syscall log of one library call
+    /// bytes a spinning sender has put into its socket since the last look are bytes the client sent
+    fn sync_firehose(&mut self) {
+        for cl in self.clients.values_mut() {
+            if cl.firehose {
+                let inj = world::with(|w| w.firehose_injected(cl.conn));
+                let unit = simkernel::world::World::FIREHOSE_UNIT;
+                while cl.fire_synced < inj {
+                    cl.sent.push(unit[(cl.fire_synced % unit.len() as u64) as usize]);
+                    cl.fire_synced += 1;
+                }
+            }
+        }
+    }
+
     fn account_log(&mut self, log: &[LogEntry], st: &mut Stats) -> Result<bool, Violation> {
+        self.sync_firehose();
         let mut progress = false;
         let mut accepted_now: Vec<(usize, i32, usize, usize)> = Vec::new();
         // number of stream descriptors open before each accept is reconstructed from the log
@@ -1804,6 +1847,11 @@ impl ServerSim {
     /// End-of-run drain: clients read everything, the application answers everything,
     /// poll while readable. No timing assumption; bounded by iterations only.
     pub fn drain(&mut self, st: &mut Stats) -> Result<(), Violation> {
+        // a spinning sender never lets the server come to rest: it leaves first
+        let spinning: Vec<usize> = self.clients.iter().filter(|(_, c)| c.firehose && !c.closed).map(|(id, _)| *id).collect();
+        for id in spinning {
+            self.step(&SStep::Close(id), st)?;
+        }
         let mut iterations = 0;
         let mut consecutive_idle = 0;
         loop {
